@@ -300,5 +300,8 @@ PROPS["C18"] = {
 PROPS["C13"]["rules"] = PROPS["C13"]["rules"] + [rules_handles.rule_slot_table_copy]
 PROPS["C13"]["explanation"] += " (SLOTCOPY) copies out of the SD file table `_cdfs`, whose positions are the SD file ids, preserve positions."
 
+PROPS["C11"]["rules"] = PROPS["C11"]["rules"] + [rules_ann.rule_lazy_tree]
+PROPS["C11"]["explanation"] += " (LAZYTREE) every routine that finds the per-type annotation tree not built yet (an_num == -1) builds it from the file with ANIcreate_ann_tree; only that builder starts a tree with tbbtdmake."
+
 NOT_APPLICABLE = {}
 
